@@ -143,7 +143,7 @@ class Capture:
         try:
             import structlog
 
-            structlog.configure(wrapper_class=structlog.make_filtering_bound_logger(50))
+            __import__('harness.core', fromlist=['core']).configure_harness_logging()      # put the harness logging configuration back
         except Exception:  # noqa: BLE001
             pass
         if self.created and not self.finished:
